@@ -45,7 +45,7 @@ TOLERANCES = {
                              'precision product spaces); exact for selections / constants '
                              '(identity, box projection, constant, zero); '
                              'NaN / inf at identical positions',
-    'fresh_inplace_vs_outofplace': '16*eps*max(|r|,|z|) (C03\'s tolerance)',
+    'fresh_inplace_vs_outofplace': '16*eps*max(|r|,|z|,|x|)',
 }
 ASSUMPTIONS = [
     'only operators the property names are called aliased: proximals, '
@@ -137,6 +137,41 @@ def _maxabs(x, spc):
     return m
 
 
+def _cmp(got, ref, spc, exact, ktol, xs):
+    """None if ``got`` equals ``ref`` within ktol*eps*max(|got|,|ref|,|x|)
+    per leaf (the scale includes |x|: cancellation in x - shrink(x)), else a
+    message."""
+    la, lb = _leaves(got, spc), _leaves(ref, spc)
+    epsmax = max([np.finfo(np.asarray(a).dtype).eps for a in la
+                  if np.asarray(a).dtype.kind in 'fc'] or [0.0])
+    for i, (a, b) in enumerate(zip(la, lb)):
+        a, b = np.asarray(a), np.asarray(b)
+        if a.shape != b.shape or a.dtype != b.dtype:
+            return 'leaf {}: shape/dtype {} {} vs {} {}'.format(
+                i, a.shape, a.dtype, b.shape, b.dtype)
+        fa, fb = np.isfinite(a), np.isfinite(b)
+        if not np.array_equal(fa, fb) or not np.array_equal(
+                np.isnan(a), np.isnan(b)):
+            return 'leaf {}: non-finite pattern differs'.format(i)
+        if not fa.any():
+            continue
+        if exact or a.dtype.kind not in 'fc':
+            ok = np.array_equal(a[fa], b[fa])
+            tol = 0.0
+        else:
+            eps = max(np.finfo(a.dtype).eps, epsmax)
+            scale = max(np.abs(a[fa]).max(), np.abs(b[fa]).max(), xs)
+            tol = ktol * eps * scale + 4 * np.finfo(a.dtype).tiny
+            ok = bool((np.abs(a[fa] - b[fa]) <= tol).all())
+        if not ok:
+            d = np.abs(a[fa] - b[fa])
+            j = int(np.argmax(d))
+            return 'leaf {}: {!r} vs out-of-place {!r} (max diff {:.3g}, ' \
+                   'tol {:.3g})'.format(i, a[fa][j], b[fa][j],
+                                        float(d.max()), float(tol))
+    return None
+
+
 def run_case(desc):
     try:
         op, ent = zoo.build_op(desc['op'])
@@ -218,7 +253,8 @@ def run_case(desc):
             raise
         raise Violation(sig('fresh-inplace-raises', type(e).__name__),
                         '{}: P(x, out=fresh) raised {!r}'.format(name, e))
-    msg = compare(z, r, ran, ent.exact, 16)
+    xs = _maxabs(x0, dom)
+    msg = _cmp(z, r, ran, ent.exact, 16, xs)
     if msg:
         raise Violation(sig('fresh-inplace'),
                         '{}: P(x, out=fresh) != P(x) (C03 matter): {}'.format(
@@ -239,40 +275,7 @@ def run_case(desc):
                         '{}: P(y, out=y) raised {!r}'.format(name, e))
     if r2 is not target:
         raise Violation(sig('identity'), name + ': P(y, out=y) is not y')
-    # tolerance scale includes |x| (cancellation in x - shrink(x))
-    la, lb = _leaves(target, ran), _leaves(r, ran)
-    xs = _maxabs(x0, dom)
-    epsmax = max([np.finfo(np.asarray(a).dtype).eps for a in la
-                  if np.asarray(a).dtype.kind in 'fc'] or [0.0])
-    bad = None
-    for i, (a, b) in enumerate(zip(la, lb)):
-        a, b = np.asarray(a), np.asarray(b)
-        if a.shape != b.shape or a.dtype != b.dtype:
-            bad = 'leaf {}: shape/dtype {} {} vs {} {}'.format(
-                i, a.shape, a.dtype, b.shape, b.dtype)
-            break
-        fa, fb = np.isfinite(a), np.isfinite(b)
-        if not np.array_equal(fa, fb) or not np.array_equal(
-                np.isnan(a), np.isnan(b)):
-            bad = 'leaf {}: non-finite pattern differs'.format(i)
-            break
-        if not fa.any():
-            continue
-        if ent.exact or a.dtype.kind not in 'fc':
-            ok = np.array_equal(a[fa], b[fa])
-            tol = 0.0
-        else:
-            eps = max(np.finfo(a.dtype).eps, epsmax)
-            scale = max(np.abs(a[fa]).max(), np.abs(b[fa]).max(), xs)
-            tol = K_TOL * eps * scale + 4 * np.finfo(a.dtype).tiny
-            ok = bool((np.abs(a[fa] - b[fa]) <= tol).all())
-        if not ok:
-            d = np.abs(a[fa] - b[fa])
-            j = int(np.argmax(d))
-            bad = 'leaf {}: aliased {!r} vs out-of-place {!r} (max diff ' \
-                  '{:.3g}, tol {:.3g})'.format(i, a[fa][j], b[fa][j],
-                                               float(d.max()), float(tol))
-            break
+    bad = _cmp(target, r, ran, ent.exact, K_TOL, xs)
     if bad:
         raise Violation(sig('aliased-value'),
                         '{}: P(y, out=y) differs from P(x): {}'.format(
